@@ -60,7 +60,7 @@ type BedOpts struct {
 	VerifyClientCert bool
 	NoClientCA       bool   // with VerifyClientCert: no tls.ca configured (system roots decide)
 	ClientCAB        string // listener kinds "tlsB" / "httpsB": a second DoT / DoH listener whose client certificates must chain to this CA file instead
-	TcpSndBuf        int // so_sndbuf of the stream listeners (0 = kernel default with auto-tuning)
+	TcpSndBuf        int    // so_sndbuf of the stream listeners (0 = kernel default with auto-tuning)
 	UdpRcvBuf        int
 	KeepRaw          bool // fake upstreams keep the wire bytes of every query
 }
